@@ -434,7 +434,15 @@ def g5i_identifier_padding(prog):
                     if not pathsem.mentions(a_, is_byte) or isinstance(tv, tuple):
                         continue
                     if a_[0] == 'discr':
-                        continue      # Some/None of get()/last(): non-empty buffer => Some
+                        # Some/None of get()/last()/pop(): the buffer holds nbytes >= 1 elements (fill-loop clause)
+                        some = True
+                        if is_byte(a_[1]) and a_[1][1].rsplit('::', 1)[-1] == 'get' and len(a_[1][2]) > 1:
+                            ixv = pathsem.evaluate(a_[1][2][1], lambda t: None)
+                            some = ixv is None or ixv < nbytes
+                        if is_byte(a_[1]) and (tv == 1) != some:
+                            feasible = False
+                            break
+                        continue
                     val = pathsem.evaluate(a_, leaf)
                     if val is None:
                         verdicts.add('?')
